@@ -135,6 +135,7 @@ type Sim struct {
 	rws      map[unsafe.Pointer]*rwState
 	wgs      map[unsafe.Pointer]*wgState
 	chans    map[unsafe.Pointer]*chanState
+	pools    map[unsafe.Pointer]*poolState
 	keep     []any // keeps identities alive for the duration of the run
 	timers   []*timer
 	timerSeq int
